@@ -7,7 +7,7 @@ use serde_json::{json, Map, Value};
 use crate::build::BuildCase;
 use crate::front::{hex, unhex, Fin, Front, Item, Op, TaskSpec, Via};
 use crate::mem::{KeyFamily, MemBuildCase, MemReadCase};
-use crate::multi::{MKind, MTask, MemFront, MultiCase};
+use crate::multi::{FromIterCase, MKind, MTask, MemFront, MultiCase};
 use crate::payload::PayloadCase;
 use crate::restart::{Base, CorruptCase, Mutation};
 use crate::sink::{ErrKind, FStep, Flip, Plan, Rest, Shape, WStep};
@@ -20,6 +20,7 @@ pub enum Case {
     Multi(MultiCase),
     MemBuild(MemBuildCase),
     MemRead(MemReadCase),
+    FromIter(FromIterCase),
 }
 
 impl Case {
@@ -31,6 +32,7 @@ impl Case {
             Case::Multi(_) => "multi_builder",
             Case::MemBuild(_) => "mem_build",
             Case::MemRead(_) => "mem_read",
+            Case::FromIter(_) => "from_iter_history",
         }
     }
 }
@@ -485,6 +487,7 @@ pub fn case_to(c: &Case) -> Value {
             "checkpoint_every": m.every,
             "sink": shape_to(&Some((m.shape, 0))),
         }}),
+        Case::FromIter(f) => json!({"from_iter": {"entry_point": f.entry.name(), "items": items_to(&f.items)}}),
         Case::MemRead(m) => json!({"mem_read": {
             "n_small": m.n_small, "n_large": m.n_large, "fanout": m.fanout,
             "keylen": m.keylen, "seed": m.seed.to_string(), "k": m.k,
@@ -512,6 +515,12 @@ pub fn case_from(v: &Value) -> R<Case> {
             bufcap: opt(x, "bufwriter_capacity").map(|c| c.as_u64().unwrap_or(0) as usize),
             every: get_u64(x, "checkpoint_every")?,
             shape: shape_from(opt(x, "sink"))?.map(|s| s.0).unwrap_or(Shape::Random { short_16: 2, intr_16: 1 }),
+        }));
+    }
+    if let Some(x) = v.get("from_iter") {
+        return Ok(Case::FromIter(FromIterCase {
+            entry: MemFront::from_name(get_str(x, "entry_point")?).ok_or("bad entry point")?,
+            items: items_from(get(x, "items")?)?,
         }));
     }
     if let Some(x) = v.get("mem_read") {
